@@ -312,7 +312,7 @@ def random_ops(rng, pool, maxhosts=4):
 # ---- histories over loopback connections (plain HTTP/1.x, TLS + HTTP/1.1, TLS + HTTP/2) ------------------
 PATHS = [b"/h/page", b"/h/page?q=1", b"/h/other", b"/f.txt", b"/g.txt"]
 CONN_HOSTS = [b"localhost", b"localhost:8080", b"127.0.0.1", b"127.0.0.1:80", b"[::1]", b"[::1]:443", b"unknown.test", b"LOCALHOST"]
-# Host values that are not URI authorities (before c618f50: connection closed / path changed)
+# Host values that are not URI authorities (before cdbcb3a: connection closed / path changed)
 BAD_AUTH = [b"", b"a b", b"[::1", b"localhost:80:80", b":80", b"\xe4.test", b"a\ttest", b"a.test/x", b"a.test?q", b"a.test#f", b"@", b"a.test:", b"::1"]
 H2_AUTH = [b"localhost", b"localhost:8443", b"127.0.0.1:8443", b"[::1]:8443", b"unknown.test", b"LOCALHOST"]
 SNIS = [b"unknown.test", b"localhost", b"www.unknown.test"]
@@ -683,7 +683,7 @@ LEVEL_TEXT = ("Coq theorems, no axioms. ROUTING: for every sequence of builder c
               "its own pipeline on the sub-history the specification assigns to it; multi_host_pipeline_eq_spec; host_alone_is_cache_pipeline: that "
               "pipeline is CacheX.runX_state of C03/C04). Five defects of the code are proved as witnesses on the faithful old model and replayed "
               "by the corpus: alias_chain_refuted, ipv6_loopback_refuted (repaired earlier), absent_host_refuted, bad_authority_refuted, "
-              "h2_authority_refuted (repaired in this round: e8886f0, c618f50, 7667690). Tied to the repo worktree by the differential run of "
+              "h2_authority_refuted (repaired in this round: 2fb2d8c, cdbcb3a, fff35ad). Tied to the repo worktree by the differential run of "
               "the real Collection calls, of kvarn::handle_connection over loopback TCP / TLS / HTTP/2 connections, and of multi-host collections "
               "over kvarn::handle_cache, against the extracted models and the specification servers.")
 LEVEL_NOTE = ("Trusted: Coq kernel; extraction (sample re-checked in-kernel); hand transcription of host.rs / handle_connection / read::request "
